@@ -13,12 +13,7 @@ from .common import ConcreteCtx
 
 
 def cli_path():
-    repo = build.copy_repo()
-    e = build._env('target-replay')
-    r = subprocess.run(['cargo', 'build', '--offline'], cwd=repo, env=e, stdout=subprocess.PIPE, stderr=subprocess.PIPE, text=True)
-    if r.returncode != 0:
-        raise RuntimeError('cli build failed: ' + r.stderr[-2000:])
-    return os.path.join(build.CACHE, 'target-replay', 'debug', 'txtpp')
+    return build.build_native(build.copy_repo())['txtpp']
 
 
 class ConcreteEnvSpec:
